@@ -543,7 +543,43 @@ def c10_9(ctx):
     return [rl.guard(ctx, spec, match, targets=targets, what="PSBTs of different transactions are refused before anything is merged", key="same-tx")]
 
 
+def c10_10(ctx):
+    """Every signer signs every input it has a key for: the loops over the inputs (and over the keys) in the signing
+    entry points run to completion — no `break`, no `return` inside — so a key that unlocks several inputs signs all of
+    them (otherwise m signers can never finalise a multi-input transaction)."""
+    out = []
+    for spec in ("psbt:PSBT.sign", "psbt:PSBT.sign_with_private_keys"):
+        mod, fn = rl.get(ctx, spec)
+        cfg = cfg_of(fn)
+        loops = [lp for lp in cfg.loops.values() if isinstance(lp.stmt, ast.For)]
+        seen = 0
+        for lp in loops:
+            it = ast.unparse(lp.stmt.iter)
+            if not ("psbt_ins" in it or "private_keys" in it or "named_pubs" in it):
+                continue
+            seen += 1
+            early = [n for n in cfg.nodes if n.id in lp.body and n.kind == "return"]
+            brk = [s for s in ast.walk(lp.stmt) if isinstance(s, ast.Break)]
+            # a break belongs to the innermost enclosing loop: only those whose innermost loop is this one
+            own = []
+            for b in brk:
+                inner = [l2 for l2 in loops if l2 is not lp and any(x is b for x in ast.walk(l2.stmt)) and any(x is l2.stmt for x in ast.walk(lp.stmt))]
+                if not inner:
+                    own.append(b)
+            if own or early:
+                w = own[0] if own else early[0].ast
+                out.append(ctx.bad(spec, "the loop `for %s in %s` is left early at line %d: inputs after the first one a key can sign stay unsigned (a key that unlocks "
+                                         "several inputs, e.g. two inputs paying to one address, signs only the first)" % (ast.unparse(lp.stmt.target), it, w.lineno), w, mod,
+                                   key="exhaustive:" + it))
+            else:
+                out.append(ctx.ok(spec, "`for %s in %s` runs to completion (no break / return inside)" % (ast.unparse(lp.stmt.target), it), lp.stmt, mod, key="exhaustive:" + it))
+        if not seen:
+            raise AnalysisError("%s: no loop over the inputs found" % spec)
+    return out
+
+
 OBLIGATIONS = [
+    ("C10.10", "COVER loops", c10_10),
     ("C10.1", "LAYOUT writer↔reader", c10_1),
     ("C10.2", "LAYOUT per key type", c10_2),
     ("C10.3", "TABLE", c10_3),
